@@ -207,7 +207,8 @@ def SameFile (r r' : Reader) : Prop :=
 
 theorem resolve_spec (r : Reader) (inv : ReaderInv r) (hp : r.seekPos < r.dsize) :
     ResOK r.file r.csize r.dsize r.seekPos 0 r.rootOff r.csize r.resolve ∧
-    rank r.file r.csize r.rootOff < r.csize := by
+    rank r.file r.csize r.rootOff < r.csize ∧
+    rank r.file r.csize r.rootOff < nodeStarts r.file r.csize := by
   obtain ⟨root, hl, rinv, hd, hoff⟩ := inv.root
   have hlt : r.rootOff < r.csize := by
     have := rinv.infile
@@ -218,8 +219,14 @@ theorem resolve_spec (r : Reader) (inv : ReaderInv r) (hp : r.seekPos < r.dsize)
     omega
   unfold Reader.resolve
   rw [hl]
+  have hns : rank r.file r.csize r.rootOff < nodeStarts r.file r.csize := by
+    have := nodeStart_of_inv rinv
+    rw [hoff] at this
+    exact rank_lt_nodeStarts _ _ _ hlt this
+  have hle := nodeStarts_le r.file r.csize
+  have h32 := inv.csize_ge
   exact ⟨resolveLoop_spec r.file r.csize r.dsize r.seekPos r.csize root r.rootOff 0 0 0 rinv hoff
-    (Nat.zero_le _) (by omega), rank_lt_csize _ _ _ hlt⟩
+    (Nat.zero_le _) (by omega), by omega, hns⟩
 
 /-- the state after landing on element `l.nextChunk` and returning it -/
 def landed (r : Reader) (l : Landing) : Reader :=
@@ -272,7 +279,7 @@ theorem nextLoop_resolving (k : Nat) (r : Reader) (inv : ReaderInv r) (he : r.er
   · simp only [hge, ↓reduceIte]
     have hsame : Reader.resolve { r with needResolve := false } = r.resolve := rfl
     rw [hsame]
-    obtain ⟨⟨hok, hnp, hnf⟩, hrank⟩ := resolve_spec r inv (by omega)
+    obtain ⟨⟨hok, hnp, hnf⟩, hrank, _⟩ := resolve_spec r inv (by omega)
     cases hr : r.resolve with
     | fuel => exact absurd hr (hnf hrank)
     | err e =>
